@@ -1,5 +1,5 @@
 """C06 - side confusion and reflection are always refused."""
-from .. import gen, worlds
+from .. import gen, worlds, faults
 from .common import Hooks, group_kind
 from ..model.groups import BadElement
 
@@ -35,6 +35,9 @@ def gen_craft(rng, n, cls, idx, gspec):
             {"kind": "reflect_variant", "how": "extend", "n": rng.choice([1, 2, 32])},
             {"kind": "reflect_variant", "how": "noncanon", "variant": rng.randrange(3)},
             {"kind": "reflect_variant", "how": "pad"},
+            {"kind": "reflect_variant", "how": "strip0"},
+            {"kind": "reflect_variant", "how": "strip0"},
+            {"kind": "reflect_variant", "how": "frame", "tail": rng.randrange(16)},
         ])
     return {"op": "craft", "dst": n, "label": lab, "body": body}
 
@@ -93,6 +96,12 @@ def resolve_variant(world, body, dst):
         return own + b"\x00" * body.get("n", 1)
     if how == "pad":
         return b"\x00" + own
+    if how == "strip0":
+        # the own element as a minimal-length integer (what a bignum library emits); when it has no
+        # leading zero octet, with its first octet dropped
+        return own.lstrip(b"\x00") if own[:1] == b"\x00" else own[1:]
+    if how == "frame":
+        return own + faults.FRAMING_TAILS[body.get("tail", 0) % len(faults.FRAMING_TAILS)]
     if g.kind == "ed" and len(own) == 32:
         raw = int.from_bytes(own, "little")
         sign, y = raw >> 255, raw & ((1 << 255) - 1)
